@@ -35,6 +35,8 @@ package main
 
 import (
 	"bufio"
+	"math"
+	"unsafe"
 	"context"
 	"fmt"
 	"net"
@@ -76,6 +78,106 @@ type Case struct {
 	Inst    []int       `json:"inst"`  // instance used by each thread (absent: all use instance 0)
 	Ns      []int       `json:"ns"`    // capacity of each instance (absent: [n])
 	Eng     Eng         `json:"eng"`   // obj "engine": how the rest.Server is configured
+	VP      int         `json:"vp"`    // kind "pl": what VALUES create() returns (the k-th creation is resource k whatever its value)
+}
+
+// Value policies of the pooled resources (kind "pl").  A resource is the k-th call of create();
+// its value is the pool user's business and must be irrelevant to the pool.
+//   0 the int64 k (all different)      1 equal strings (distinct backing arrays)
+//   2 equal struct values              3 NaNs (never equal, not even to themselves)
+//   4 slices   5 maps   6 funcs        (uncomparable: == on them panics)
+//   7 the same int   8 struct{}{}   9 one shared pointer   (equal AND indistinguishable: the
+//     executor follows them with a shadow of the idle stack; single-threaded scripts without max-age only)
+type endpoint struct{ addr string }
+
+type valuer struct {
+	vp     int
+	mu     sync.Mutex
+	byData map[*byte]int64
+	shadow []int64 // policies 7-9: ids on the idle stack, top last
+	shared *int
+}
+
+func newValuer(vp int) *valuer {
+	return &valuer{vp: vp, byData: map[*byte]int64{}, shared: new(int)}
+}
+
+func (v *valuer) str(id int64) string {
+	s := string([]byte("10.0.0.1:3306"))
+	v.mu.Lock()
+	v.byData[unsafe.StringData(s)] = id
+	v.mu.Unlock()
+	return s
+}
+
+func (v *valuer) mk(id int64) any {
+	switch v.vp {
+	case 1:
+		return v.str(id)
+	case 2:
+		return endpoint{addr: v.str(id)}
+	case 3:
+		return math.Float64frombits(0x7ff8000000000001 + uint64(id))
+	case 4:
+		return []int64{id}
+	case 5:
+		return map[string]int64{"id": id}
+	case 6:
+		return func() int64 { return id }
+	case 7:
+		return int64(7)
+	case 8:
+		return struct{}{}
+	case 9:
+		return v.shared
+	}
+	return id
+}
+
+func (v *valuer) indistinct() bool { return v.vp >= 7 }
+
+// idOf: which creation a distinguishable value is (-1 for the indistinguishable policies)
+func (v *valuer) idOf(x any) int64 {
+	switch t := x.(type) {
+	case int64:
+		if v.vp == 0 {
+			return t
+		}
+	case string:
+		v.mu.Lock()
+		defer v.mu.Unlock()
+		return v.byData[unsafe.StringData(t)]
+	case endpoint:
+		v.mu.Lock()
+		defer v.mu.Unlock()
+		return v.byData[unsafe.StringData(t.addr)]
+	case float64:
+		return int64(math.Float64bits(t) - 0x7ff8000000000001)
+	case []int64:
+		return t[0]
+	case map[string]int64:
+		return t["id"]
+	case func() int64:
+		return t()
+	}
+	return -1
+}
+
+func (v *valuer) push(id int64) {
+	v.mu.Lock()
+	v.shadow = append(v.shadow, id)
+	v.mu.Unlock()
+}
+
+func (v *valuer) pop() int64 {
+	v.mu.Lock()
+	defer v.mu.Unlock()
+	if len(v.shadow) == 0 {
+		return -7 // the pool handed out something it cannot have
+	}
+	id := v.shadow[len(v.shadow)-1]
+	v.shadow = v.shadow[:len(v.shadow)-1]
+	return id
 }
 
 // Eng: configuration of the rest.Server of obj "engine".
@@ -605,6 +707,8 @@ func runPL(c Case, ctl *sched.Ctl, mon *monitor, wg *sync.WaitGroup) {
 		k := k
 		var next int64
 		var live int32
+		val := newValuer(c.VP)
+		createdNow := make([]int64, len(c.Scripts)) // per thread: 1 + id created by its current Get, 0 = none
 		inUse := map[int64]*int32{}
 		var imu sync.Mutex
 		flag := func(x int64) *int32 {
@@ -633,22 +737,61 @@ func runPL(c Case, ctl *sched.Ctl, mon *monitor, wg *sync.WaitGroup) {
 				a = 0
 			}
 			op := ctl.CurOp(a)
+			if a < len(createdNow) {
+				atomic.StoreInt64(&createdNow[a], id+1)
+			}
 			ctl.Log(a, "create", op, id)
 			ctl.Gate(a, "create", op)
-			return id
+			return val.mk(id)
 		}
 		destroy := func(x any) {
 			atomic.AddInt32(&live, -1)
-			if atomic.LoadInt32(flag(x.(int64))) != 0 {
-				mon.report("pool: destroyed resource %d while held", x.(int64))
+			id := val.idOf(x)
+			if val.indistinct() {
+				id = val.pop()
+			}
+			if atomic.LoadInt32(flag(id)) != 0 {
+				mon.report("pool: destroyed resource %d while held", id)
 			}
 			a := ctl.Actor()
 			if a < 0 {
 				a = 0
 			}
-			ctl.Log(a, "destroy", ctl.CurOp(a), x.(int64))
+			ctl.Log(a, "destroy", ctl.CurOp(a), id)
 		}
-		pool := syncx.NewPool(caps[k], create, destroy, syncx.WithMaxAge(time.Duration(c.MaxAge)))
+		// which creation a Get handed out: read off the value, or (indistinguishable values) the one
+		// just created by this very Get, else the top of the shadow stack
+		type res struct {
+			id int64
+			v  any
+		}
+		var pool *syncx.Pool
+		get := func(tid int) res {
+			atomic.StoreInt64(&createdNow[tid], 0)
+			x := pool.Get()
+			id := val.idOf(x)
+			if val.indistinct() {
+				if cn := atomic.LoadInt64(&createdNow[tid]); cn > 0 {
+					id = cn - 1
+				} else {
+					id = val.pop()
+				}
+			}
+			return res{id, x}
+		}
+		put := func(x res) (r int64) {
+			defer func() {
+				if p := recover(); p != nil {
+					r = -9 // Put panicked (e.g. == on an uncomparable value)
+				}
+			}()
+			if val.indistinct() {
+				val.push(x.id)
+			}
+			pool.Put(x.v)
+			return x.id
+		}
+		pool = syncx.NewPool(caps[k], create, destroy, syncx.WithMaxAge(time.Duration(c.MaxAge)))
 		// linearisation order of the critical sections (see harness/overlay/syncx/verif_c05_hooks.go)
 		pool.VerifOnLock(func() {
 			if a := ctl.Actor(); a >= 0 {
@@ -664,7 +807,7 @@ func runPL(c Case, ctl *sched.Ctl, mon *monitor, wg *sync.WaitGroup) {
 			wg.Add(1)
 			ctl.Go(tid, func() {
 				defer wg.Done()
-				var held []int64
+				var held []res
 				for i, op := range script {
 					ctl.Gate(tid, "call", i)
 					ctl.SetOp(tid, i)
@@ -675,19 +818,18 @@ func runPL(c Case, ctl *sched.Ctl, mon *monitor, wg *sync.WaitGroup) {
 						if c.Free && len(held) > 0 {
 							break // free mode: hold at most one, so that the run cannot deadlock
 						}
-						x := pool.Get().(int64)
-						if !atomic.CompareAndSwapInt32(flag(x), 0, 1) {
-							mon.report("pool: resource %d handed to two users", x)
+						x := get(tid)
+						if !atomic.CompareAndSwapInt32(flag(x.id), 0, 1) {
+							mon.report("pool: resource %d handed to two users", x.id)
 						}
-						held = append([]int64{x}, held...)
-						r = x
+						held = append([]res{x}, held...)
+						r = x.id
 					case 1:
 						if len(held) > 0 {
 							x := held[0]
 							held = held[1:]
-							atomic.StoreInt32(flag(x), 0)
-							pool.Put(x)
-							r = x
+							atomic.StoreInt32(flag(x.id), 0)
+							r = put(x)
 						}
 					case 2:
 						if !c.Free {
@@ -707,12 +849,12 @@ func runPL(c Case, ctl *sched.Ctl, mon *monitor, wg *sync.WaitGroup) {
 									r = -2
 								}
 							}()
-							x := pool.Get().(int64)
-							if !atomic.CompareAndSwapInt32(flag(x), 0, 1) {
-								mon.report("pool: resource %d handed to two users", x)
+							x := get(tid)
+							if !atomic.CompareAndSwapInt32(flag(x.id), 0, 1) {
+								mon.report("pool: resource %d handed to two users", x.id)
 							}
-							held = append([]int64{x}, held...)
-							r = x
+							held = append([]res{x}, held...)
+							r = x.id
 						}()
 						atomic.StoreInt32(&panicCreate[tid], 0)
 					}
@@ -720,8 +862,8 @@ func runPL(c Case, ctl *sched.Ctl, mon *monitor, wg *sync.WaitGroup) {
 				}
 				if c.Free {
 					for _, x := range held {
-						atomic.StoreInt32(flag(x), 0)
-						pool.Put(x)
+						atomic.StoreInt32(flag(x.id), 0)
+						put(x)
 					}
 				}
 			})
